@@ -868,12 +868,8 @@ class Discharger:
 
         from .. import innerval
 
-        EV, _why = innerval.cached(self.f, self.b, self.an)
-        if EV is not None:
-            entry = self.an.role("prec_entry")
-            atom_only = all(s.startswith(self.f.fn(entry).module[0]) and "precedence" in s for s in sites)
-            mapped = EV["ok_tokens"] and EV["ok_empty"]
-            return (mapped and atom_only), "never-built", "Expression::Global is constructed only in %s (from Token::Global); the inner parse function replaces every Token::Global before the precedence parser runs: %s (%s)" % (sorted(set(sites)), mapped, innerval.how(EV))
+        from .. import innerval
+
         S = c06.inner_summary(self.b, infn)
         lexk, entryk = self.an.role("lex"), self.an.role("prec_entry")
         mapped = False
@@ -893,8 +889,15 @@ class Discharger:
                         mapped = len(ap) == 1 and ap[0]["arg"]["v"] == "list" and ap[0]["arg"]["from"] == t["id"] and not S.unknown
         entry = self.an.role("prec_entry")
         atom_only = all(s.startswith(self.f.fn(entry).module[0]) and "precedence" in s for s in sites)
+        how_ = ""
+        if not mapped:
+            # the statements are not of the recognised shape: the inner function is evaluated on scenarios
+            EV, _why = innerval.cached(self.f, self.b, self.an)
+            if EV is not None:
+                mapped = EV["ok_tokens"] and EV["ok_empty"]
+                how_ = " (%s)" % innerval.how(EV)
         ok = mapped and atom_only
-        return ok, "never-built", "Expression::Global is constructed only in %s (from Token::Global); the inner parse function replaces every Token::Global before the precedence parser runs: %s" % (sorted(set(sites)), mapped)
+        return ok, "never-built", "Expression::Global is constructed only in %s (from Token::Global); the inner parse function replaces every Token::Global before the precedence parser runs: %s%s" % (sorted(set(sites)), mapped, how_)
 
     # ------------------------------------------------------------ unwraps
     def unwrap_site(self, s, f):
